@@ -86,4 +86,5 @@ fn decomp_check<const N: usize>() {
 }
 #[kani::proof] #[kani::unwind(6)] fn decomp_d1() { decomp_check::<1>() }
 #[kani::proof] #[kani::unwind(8)] fn decomp_d2() { decomp_check::<2>() }
-#[kani::proof] #[kani::unwind(10)] fn decomp_d3() { decomp_check::<3>() }
+// decomp_d3 is NOT registered in properties.json: with unwind(10) Kani stops at an unwinding assertion after 12 min (undecided), so it cannot stand in yet
+#[kani::proof] #[kani::unwind(16)] fn decomp_d3() { decomp_check::<3>() }
